@@ -41,7 +41,7 @@ BOUNDS = {
                  'chain_depth': 120},
 }
 ASSUMPTIONS = [
-    'per-case wall-clock limit 1 s ("promptly"), address space limit 4 GiB '
+    'per-case wall-clock limit 2 s ("promptly"), address space limit 4 GiB '
     'per worker (timeouts and MemoryError are observations, not harness '
     'errors); a shard is abandoned, and reported as a violation, after 3 '
     'timeouts',
@@ -62,7 +62,7 @@ LEVEL_NOTE = ('Every configuration is executed on the implementation. '
               'against an explicit quadratic.')
 
 CHAIN_D = {'quick': 40, 'thorough': 120}
-PROMPT_S = 1.0          # "promptly"
+PROMPT_S = 2.0          # "promptly"
 MAX_SLOW_PER_SHARD = 3  # then the shard is abandoned (recorded as a failure)
 _SLOW = [0]
 
